@@ -356,25 +356,66 @@ def rule_f(prog, rep):
         rep.violation('C03.f', 'disconnected', d.loc, 'disconnected does not unsubscribe every subscription of the client',
                       key='C03.f/disconnected/loop')
     # registry mutations
+    registry_mutations(prog, rep, 'C03.f', 'subscribers::', 'HashMap<worterbuch_common::KeySegment, subscribers::Node', 'Vec<subscribers::Subscriber',
+                       3, 'registry mutation sites (1 entry + 2 retain)')
+
+
+
+def _guarded_prune(nd, anc):
+    """the removal executes only under `<node>.tree.is_empty()` and `<node>.(ls_)subscribers.is_empty()`"""
+    names = set()
+    for it in guards(anc + (nd,)):
+        if it[0] != 'if' or it[2] is not True:
+            continue
+        for c in conjuncts(it[1]):
+            c, pol = strip_not(c)
+            if pol and c.get('k') == 'call' and short(callee(c)) == 'is_empty' and c['args']:
+                a = c['args'][0]
+                while a.get('k') in ('ref',):
+                    a = a['e']
+                if a.get('k') == 'field':
+                    names.add(a['name'])
+    return 'tree' in names and bool(names & {'subscribers', 'ls_subscribers'})
+
+
+def _callers_guarded(crate, fn_):
+    """a private helper that prunes: every call site of it sits under the neither-subscribers-nor-children condition"""
+    sites = [(nd, anc) for g in crate.top_fns() for nd, anc in crate.walk_fn(g) if nd.get('k') == 'call' and callee(nd) == fn_.path]
+    return bool(sites) and all(_guarded_prune(nd, anc) for nd, anc in sites)
+
+
+def registry_mutations(prog, rep, rid, fn_prefix, tree_ty, vec_ty, floor, floor_text):
+    """A subscriber registry (a trie of nodes, each with a list of subscribers) is only ever extended node-wise; a subscriber
+    leaves by id (Vec::retain(|s| s.id != ..)).  Removing a trie node would make the subscriptions below it unreachable."""
+    crate = prog.crate(WB)
     n = 0
     for fn_ in crate.top_fns():
-        if not fn_.path.startswith('subscribers::'):
+        if not fn_.path.startswith(fn_prefix):
             continue
+        fb = None
         for nd, anc in crate.walk_fn(fn_):
+            if nd.get('k') == 'assign' and nd['l'].get('k') == 'field' and nd['l']['name'] == 'tree' and \
+                    tree_ty.split('<')[-1].split(',')[-1].strip() in str(nd['l'].get('base_ty')):
+                n += 1
+                rep.violation(rid, f'{fn_.path}:tree=', loc(fn_, nd), 'replaces the tree of a registry node wholesale',
+                              key=f'{rid}/{fn_.path}/tree.assign')
+                continue
             if nd.get('k') != 'call':
                 continue
             rt = str(nd.get('recv_ty') or '')
             m = short(callee(nd))
-            if 'HashMap<worterbuch_common::KeySegment, subscribers::Node' in rt and \
-                    m in ('remove', 'clear', 'retain', 'drain', 'remove_entry', 'extract_if', 'insert', 'entry', 'take'):
+            if tree_ty in rt and m in ('remove', 'clear', 'retain', 'drain', 'remove_entry', 'extract_if', 'insert', 'entry', 'take'):
                 n += 1
                 if m in ('entry', 'insert'):
-                    rep.ok('C03.f', f'{fn_.path}:tree.{m}', loc(fn_, nd), 'tree nodes are only added')
+                    rep.ok(rid, f'{fn_.path}:tree.{m}', loc(fn_, nd), 'tree nodes are only added')
+                elif m in ('remove', 'remove_entry') and (_guarded_prune(nd, anc) or _callers_guarded(crate, fn_)):
+                    rep.ok(rid, f'{fn_.path}:tree.{m}', loc(fn_, nd), 'a node is pruned only when it has neither subscribers nor children')
                 else:
-                    rep.violation('C03.f', f'{fn_.path}:tree.{m}', loc(fn_, nd), 'removes nodes of the subscription tree: '
+                    rep.violation(rid, f'{fn_.path}:tree.{m}', loc(fn_, nd), 'removes nodes of the subscription tree: '
                                   'subscriptions registered below such a node become unreachable',
-                                  key=f'C03.f/{fn_.path}/tree.{m}', expected='remove only the subscriber (Vec::retain by id)')
-            if 'Vec<subscribers::Subscriber' in rt and m in ('retain', 'clear', 'drain', 'remove', 'truncate', 'pop', 'swap_remove'):
+                                  key=f'{rid}/{fn_.path}/tree.{m}', expected='remove only the subscriber (Vec::retain by id)')
+            if vec_ty in rt and not rt.startswith(('std::vec::Vec<(', '&')) and \
+                    m in ('retain', 'clear', 'drain', 'remove', 'truncate', 'pop', 'swap_remove'):
                 n += 1
                 okp = False
                 if m == 'retain':
@@ -385,12 +426,11 @@ def rule_f(prog, rep):
                                 if x.get('k') == 'binary' and x.get('op') == 'Ne' and ('id' in str(x['l'])[:300] or 'id' in str(x['r'])[:300]):
                                     okp = True
                 if okp:
-                    rep.ok('C03.f', f'{fn_.path}:subscribers.retain', loc(fn_, nd), 'removes by subscription id only')
+                    rep.ok(rid, f'{fn_.path}:subscribers.retain', loc(fn_, nd), 'removes by subscription id only')
                 else:
-                    rep.violation('C03.f', f'{fn_.path}:subscribers.{m}', loc(fn_, nd), 'removes subscribers other than by id',
-                                  key=f'C03.f/{fn_.path}/subscribers.{m}')
-    rep.floor('C03.f', n, 3, 'registry mutation sites (1 entry + 2 retain)')
-
+                    rep.violation(rid, f'{fn_.path}:subscribers.{m}', loc(fn_, nd), 'removes subscribers other than by id',
+                                  key=f'{rid}/{fn_.path}/subscribers.{m}')
+    rep.floor(rid, n, floor, floor_text)
 
 def rule_g(prog, rep):
     c13.rule_g(prog, rep, rid='C03.g')
